@@ -128,7 +128,22 @@ def cases(rng, tier):
         inc = None if rng.random() < 0.7 else "dir/shader.wgsl"
         for v in (False, True):
             out.append({"wgsl": t, "family": fam, "opts": {"validate": v, "encase": True}, "include": inc})
+    # the validator's verdict depends on the capability set: the same text validated under alternating sets, in one process
+    # (every call must be judged by ITS capabilities, whatever earlier calls on the same text returned)
+    for t in CAPS_SOURCES:
+        for caps in ("empty", "all", "empty", "no_push_constant", "all", "no_float64", "empty"):
+            inc = None if rng.random() < 0.7 else "dir/shader.wgsl"
+            for v in (False, True):
+                out.append({"wgsl": t, "family": "capability_sets", "opts": {"validate": v, "caps": caps}, "include": inc})
     return out
+
+
+CAPS_SOURCES = [
+    "var<push_constant> pc: vec4<f32>;\n@fragment fn fs() -> @location(0) vec4<f32> { return pc; }\n",
+    "@group(0) @binding(0) var<storage, read> data: array<f64>;\n@compute @workgroup_size(1) fn cs() { _ = data[0]; }\n",
+    "struct P { a: f32, b: f32 }\nvar<push_constant> p: P;\n@group(0) @binding(0) var<storage, read> d: array<f64, 4>;\n"
+    "@vertex fn vs() -> @builtin(position) vec4<f32> { return vec4<f32>(p.a + f32(d[1])); }\n",
+]
 
 
 def run_cases(plain, cases_, workdir, tag):
